@@ -190,6 +190,22 @@ for _k in ('C01', 'C04', 'C05', 'C06', 'C07', 'C09', 'C10'):
                                                'settings, so the property carries over to Bycycle.df_features (no refit shortcut or cached table).')
 for _k in ('C01', 'C02', 'C03', 'C04', 'C05', 'C06', 'C07', 'C08', 'C09', 'C10', 'C16', 'C17', 'C18', 'C20'):
     CHECKS[_k]['text'] = CHECKS[_k]['text'] + ' Shared clause NO-HISTORY: no function reachable from the entry points writes module-level state (caches, edited constants).'
+CHECKS['C01']['text'] = CHECKS['C01']['text'] + ' PY-DIVISION: no division by a python scalar taken out of an array on the analysis path (ZeroDivisionError instead of nan for flat cycles); WINDOW-TILING also decides the number of closed half-waves searched.'
+CHECKS['C02']['text'] = CHECKS['C02']['text'] + ' SAMPLE-NEG: the extremum search never negates raw sample values (integer wrap at the rails).'
+CHECKS['C10']['text'] = CHECKS['C10']['text'] + ' SAMPLE-PRODUCT: no product of two raw sample values on the analysis path (overflow of narrow integer recordings under scaling); EXT-UNITS: only callees with a unit signature in the model table receive fs / f_range / durations; quantising a seconds- or Hz-valued term is an absolute level.'
+CHECKS['C15']['text'] = CHECKS['C15']['text'] + ' NO-UNINIT: no uninitialised buffers (np.empty / empty_like).'
+CHECKS['C14']['text'] = CHECKS['C14']['text'] + ' DEFAULTS-FRESH: no settings attribute is, or is part of, a module-level object; GROUP-RECOMPUTE expects each member recomputed with its own stored thresholds.'
 CHECKS['C03']['text'] = CHECKS['C03']['text'] + ' SAMPLE-DIFF: the midpoint search forms no difference of two raw sample values (wrap-around for unsigned integer recordings).'
+# deciding methods added with the shared clauses and lints (the technique field names every method a verdict can come from)
+for _k in ('C01', 'C04', 'C05', 'C06', 'C07', 'C09', 'C10', 'C19'):
+    CHECKS[_k]['technique'] += '; symbolic evaluation of Bycycle.fit on a heap object in an unknown earlier state (unconditional-delegation rule)'
+for _k in ('C01', 'C02', 'C03', 'C04', 'C05', 'C06', 'C07', 'C08', 'C09', 'C10', 'C11', 'C12', 'C13', 'C14', 'C16', 'C17', 'C18', 'C19', 'C20'):
+    CHECKS[_k]['technique'] += '; who-may-write rule for module-level state over the call-graph closure of the entry points (effect summaries)'
+for _k, _t in (('C01', 'forward-taint lint for python-scalar division'), ('C02', 'forward-taint lint for negated sample values'), ('C03', 'forward-taint lint for sample differences'),
+               ('C10', 'forward-taint lint for sample products; who-may-receive rule for dimensional arguments of external callees'),
+               ('C14', 'alias analysis of what settings attributes hold and of constructor arguments'), ('C15', 'who-may-call lints for completion-order primitives and uninitialised buffers')):
+    CHECKS[_k]['technique'] += '; ' + _t
+for _k in ('C06', 'C12', 'C13', 'C14', 'C16', 'C17', 'C19'):
+    CHECKS[_k]['technique'] += '; rules borrowed from the property that anchors a function this one depends on (sa/check.py:BORROWED)'
 for _k in CHECKS:
     CHECKS[_k]['text'] = CHECKS[_k]['text'] + ' Every path the rules evaluate must also be free of exactly modelled Python errors (NO-PYERROR); where the anchored entry points document a default, the signature default equals it (DOC-DEFAULT).'
